@@ -91,7 +91,7 @@ def _with_insertions(scns, n, seed, **kw):
 def c04(tier, seed):
     from scenarios import cat, mr, caitems, cacat, scenario
     n = 12 if tier == "quick" else 60
-    y = dict(yvals=(0, 1, 3), ymeasures=("mean", "sum"), valid_counts=True)
+    y = dict(yvals=(0, 1, 3), ymeasures=("mean", "sum", "stddev", "median"), valid_counts=True)
     scns = [
         scenario("cat_x_cat", [cat("A", 4, miss=[2]), cat("B", 4, miss=[4])]),
         scenario("cat_x_mr", [cat("A", 4, miss=[3]), mr("B", 2)]),
@@ -307,4 +307,76 @@ def c17(tier, seed):
     )
 
 
-PROPS = {"C15": c15, "C16": c16, "C17": c17, "C14": c14, "C12": c12, "C01": c01, "C02": c02, "C03": c03, "C04": c04, "C11": c11}
+def _with_order_configs(scns, n, seed, **kw):
+    import configs
+    import envelope
+    out = []
+    for i, s in enumerate(scns):
+        s = dict(s)
+        ri, ci = envelope.slice_dim_indexes(s["dims"])
+        rd = s["dims"][ri]
+        cd = s["dims"][ci] if ci is not None else None
+        s["configs"] = [configs.DEFAULT] + configs.order_configs(rd, cd, n, seed * 977 + i, **kw)
+        out.append(s)
+    return out
+
+
+def c07(tier, seed):
+    from scenarios import cat, mr, caitems, cacat, scenario
+    n = 400 if tier == "quick" else 6000
+    scns = [
+        scenario("cat_x_cat", [cat("A", 4, miss=[2]), cat("B", 4, miss=[4], ids=[3, 1, 2, 8])]),
+        scenario("cat_x_cat.ids", [cat("A", 4, miss=[1], ids=[7, 3, 1, 2]), cat("B", 3)]),
+        scenario("cat_x_mr", [cat("A", 4, miss=[3]), mr("B", 3)]),
+        scenario("mr_x_cat", [mr("A", 3), cat("B", 4, miss=[1], ids=[9, 2, 3, 1])]),
+        scenario("catdate_x_cat", [cat("A", 3, date=True), cat("B", 3, ids=[2, 3, 1])]),
+        scenario("casub_x_cacat", [caitems("A", 3), cacat("A", 3)]),
+        scenario("cat_1d", [cat("A", 4, miss=[2], ids=[4, 9, 1, 2])]),
+        scenario("mr_1d", [mr("A", 3)]),
+        scenario("cat_x_cat_x_cat", [cat("T", 2), cat("A", 3), cat("B", 3, ids=[3, 2, 1])]),
+    ]
+    scns = _with_order_configs(scns, n, seed)
+    for s in scns:
+        s["max_resp"] = 0
+    jobs = [make_job(dict(s, max_resp=0), "c07", ("replay_basic", "replay"), mode="bfs",
+                     prop_id="C07", count_empty_nontrivial=True) for s in scns]
+    return dict(
+        jobs=jobs,
+        rule="per scenario a seeded sample of configurations: explicit id lists (subsets, "
+             "repeats, stale and missing ids) or payload order, hidden subsets, 0-3 insertions "
+             "with any anchor spelling, with / without / mixed ids, on the view or in the "
+             "transforms; element ids not ascending in the payload; each configuration x the "
+             "empty survey and every single respondent",
+        assumptions=ASSUME_COMMON + ["configurations are sampled by the harness (syntax "
+                                     "only); their meaning is Insertions.tla / Collate.tla"],
+        feature_floor=("ins_rows",),
+    )
+
+
+def c09(tier, seed):
+    from scenarios import cat, mr, caitems, cacat, numarr, scenario
+    n = 10 if tier == "quick" else 60
+    w = dict(weights=(0, 1, 2))
+    scns = [
+        scenario("cat_x_cat", [cat("A", 3, miss=[2]), cat("B", 3)], **w),
+        scenario("cat_x_mr", [cat("A", 3), mr("B", 2)], **w),
+        scenario("mr_x_cat", [mr("A", 2), cat("B", 3, miss=[3])], **w),
+        scenario("mr_x_mr", [mr("A", 2), mr("B", 2)], **w),
+        scenario("casub_x_cacat", [caitems("A", 2), cacat("A", 3)], **w),
+        scenario("cat_1d", [cat("A", 4, miss=[2])], **w),
+        scenario("mr_1d", [mr("A", 3)], **w),
+        scenario("cat_x_cat_x_cat", [cat("T", 2), cat("A", 2), cat("B", 3)], **w),
+        scenario("mr_x_cat_x_mr", [mr("T", 2), cat("A", 2), mr("B", 2)], **w),
+    ]
+    scns = _with_order_configs(scns, n, seed, with_prune=True)
+    return dict(
+        jobs=_value_jobs("C09", "c09", scns, tier, seed),
+        rule="seeded hide / prune / order / insertion configurations x every bag of <= N "
+             "respondents with weights {0,1,2} (weight 0: unweighted count positive, weighted "
+             "zero) and random larger bags",
+        assumptions=ASSUME_COMMON,
+        feature_floor=("weights_differ",),
+    )
+
+
+PROPS = {"C07": c07, "C09": c09, "C15": c15, "C16": c16, "C17": c17, "C14": c14, "C12": c12, "C01": c01, "C02": c02, "C03": c03, "C04": c04, "C11": c11}
